@@ -16,6 +16,8 @@ Lines (tab separated):
   lend.handover borrowId newInterest <outcome> <state>           -- the V2 liquidation hand-over (own trace kind: own call site)
   lend.close bidder borrowId paid recv left topUp <outcome> <state>  -- the closing bid of the V2 auction (MsgCloseDutchAuctionForBorrow)
   lend.beginblock <outcome> <state>                              -- the x/lend block hook at a height divisible by 14400
+  lend.migrate pairs rates <outcome> <state>                     -- the store migration 2 → 3 ran: pairs `id:inter:eMode,…`, rates
+                                                                    `asset:stableOk:isolated:eLtv:ePenalty:ltv:cAsset:penalty,…` after it
 <state> := ctr(lendCtr,borrowCtr,blockTime)  L  B  S  K  P  F  AB  AL  R  V   (eleven fields, records `|`-separated, record fields `:`-separated)
   L id:owner:pool:asset:amountIn:avail:app
   B id:lendingId:pairId:inDenom:amountIn:outDenom:amountOut:interest:stable:liq:brDenom:bridged:reserveInt
@@ -679,6 +681,27 @@ def handle (st : St) (seq : String) (f : List String) : St × List String :=
   | "lend.handover" :: rest => opLine st seq "handover" rest
   | "lend.close" :: rest => opLine st seq "auctionClose" rest
   | "lend.beginblock" :: rest => opLine st seq "beginBlock" rest
+  | "lend.migrate" :: pairs :: rates :: outcome :: implF =>
+    -- the store migration 2 → 3: the configuration changes, the state must not
+    match parseState implF, parseAcc implF with
+    | some impl, some (now, implB, implL) =>
+      let newCfg := migrateCfg st.cfg
+      let showPairs (c : Cfg) : String := ",".intercalate (c.pairs.map fun p => s!"{p.id}:{p.inter}:{p.eMode}")
+      let showRates (c : Cfg) : String := ",".intercalate (c.rates.map fun r => s!"{r.asset}:{r.stableOk}:{r.isolated}:{r.eLtv}:{r.eLiqPenalty}:{r.ltv}:{r.cAsset}:{r.liqPenalty}")
+      let d1 := if outcome = "ok" then [] else [s!"DIFF\t{seq}\tmigrate\tmodel=ok impl={outcome}"]
+      let d2 := (if showPairs newCfg = pairs then [] else [s!"DIFF\t{seq}\tmigrate\tpairs model={showPairs newCfg} impl={pairs}"]) ++
+                (if showRates newCfg = rates then [] else [s!"DIFF\t{seq}\tmigrate\trates model={showRates newCfg} impl={rates}"])
+      let d3 := (diffCanon (canon st.cfg st.s) (canon st.cfg impl)).map fun d => s!"DIFF\t{seq}\tmigrate\tmigration changed state: {d}"
+      let spec := migrateCfgSpec st.cfg
+      let m1 := if showPairs spec = pairs && showRates spec = rates then [] else [s!"MON\t{seq}\tmigration_leak\tmigrate"]
+      -- the book identities under the migrated configuration
+      let badIds := impl.stats.any fun r =>
+        !(r.lendIds == lendIdsOf impl.lends r.pool r.asset && r.borrowIds == borrowIdsOf newCfg impl.borrows r.pool r.asset)
+      let m2 := (if badIds && decide (IdsOk st.cfg st.s) then [s!"MON\t{seq}\tids_consistent\tmigrate"] else []) ++
+                (if gapChanged (borGaps st.cfg false st.s) (borGaps newCfg false impl) then [s!"MON\t{seq}\ttotal_borrowed\tmigrate"] else []) ++
+                (if gapChanged (borGaps st.cfg true st.s) (borGaps newCfg true impl) then [s!"MON\t{seq}\ttotal_stable\tmigrate"] else [])
+      ({ st with cfg := newCfg, s := impl, accB := implB, accL := implL, now := now }, d1 ++ d2 ++ d3 ++ m1 ++ m2)
+    | _, _ => bad "migrate state"
   | "lend.op" :: name :: rest => opLine st seq name rest
   | _ => bad "unknown lend line"
 
